@@ -28,6 +28,7 @@
  *   LINK!<k> slot k is not a first top-level sibling with consistent parent/prev/next links after the call
  *   FREED!  an input that is not consumed (on this path) was freed by the call
  *   NC!     an input documented as consumed was neither freed nor moved (LYD_MERGE_DESTRUCT source after a failed merge)
+ *   TFREED! a failed merge freed the TARGET forest
  *   REST!   lyd_free_tree/lyd_free_siblings changed something outside the freed subtree
  *   DICT!   a failed lys_parse_mem changed the number of dictionary strings
  *   CTX!    the context does not parse a trivial document any more after lys_parse_mem
@@ -43,6 +44,8 @@
  *   path|path1 N ctx path val opts             (lyd_new_path2 / lyd_new_path; empty slot: parent NULL, tree -> slot)
  *   ins c|s|b|a TGT SRC | unlink N D | free S | freen N | freesib N | chg N val | chgmeta N j val
  *   dup N P opts D s|b ctx | merge T S opts t|s | diff A B opts D | apply T F | rev F D | dmerge F1 F2 opts
+ *   merge T S opts m K mod    lyd_merge_module with a callback that returns LY_EDENIED at its K-th call (0: never)
+ *   apply T F K | dmerge F1 F2 opts K   lyd_diff_apply_module / lyd_diff_merge_module (all modules) with such a callback
  *   parse ctx fmt popts vopts data D | parsep N fmt popts vopts data | parseop ctx fmt r|n|y data D [N]
  *   val S ctx opts withdiff D | valmod S mod opts withdiff D | valop N S|~ r|n|y withdiff D | impl S ctx opts withdiff D
  *   xfind N expr | xeval N expr | print N fmt opts | lys ctx yangtext
@@ -983,6 +986,33 @@ take_dest(const char *w, struct cmdres *r, int in1, int in2)
     return d;
 }
 
+/* callbacks that fail at the K-th call: every API that takes a callback must clean up after any of its calls fails */
+struct failcb {
+    int failat;
+    int calls;
+};
+
+static LY_ERR
+failcb_step(struct failcb *f)
+{
+    ++f->calls;
+    return (f->failat && (f->calls == f->failat)) ? LY_EDENIED : LY_SUCCESS;
+}
+
+static LY_ERR
+merge_failcb(struct lyd_node *trg_node, const struct lyd_node *src_node, void *cb_data)
+{
+    (void)trg_node; (void)src_node;
+    return failcb_step(cb_data);
+}
+
+static LY_ERR
+diff_failcb(const struct lyd_node *diff_node, struct lyd_node *data_node, void *cb_data)
+{
+    (void)diff_node; (void)data_node;
+    return failcb_step(cb_data);
+}
+
 #define NEED(n) if (nw < (n)) { r->skipped = 2; return; }
 #define SKIP() do { r->skipped = 1; return; } while (0)
 #define OPTS(w) ((uint32_t)strtoul((w), NULL, 0))
@@ -1513,13 +1543,33 @@ run_cmd(char **w, int nw, struct cmdres *r)
         r->modfail |= 1u << t;
         r->ectx = LYD_CTX(src);
         watch_set(src);
+        watch_set(T[t]);
         if (opts & LYD_MERGE_DESTRUCT) {
             r->inv |= 1u << s;
             r->modfail |= 1u << s;
         }
-        r->rc = (w[4][0] == 't') ? lyd_merge_tree(&T[t], src, opts) : lyd_merge_siblings(&T[t], src, opts);
+        if (w[4][0] == 'm') {
+            struct failcb fc = {0, 0};
+            const struct lys_module *mod;
+
+            NEED(7);
+            fc.failat = atoi(w[5]);
+            mod = mod_arg(w[6]);
+            if (mod && (mod->ctx != LYD_CTX(src))) {
+                mod = NULL;
+            }
+            r->rc = lyd_merge_module(&T[t], src, mod, merge_failcb, &fc, opts);
+        } else {
+            r->rc = (w[4][0] == 't') ? lyd_merge_tree(&T[t], src, opts) : lyd_merge_siblings(&T[t], src, opts);
+        }
         r->fail = r->rc ? 1 : 0;
-        if (opts & LYD_MERGE_DESTRUCT) {
+        if (r->rc && T[t] && watch_was_freed(T[t])) {
+            /* the first target sibling was freed: lyd_merge() freed the siblings of a spent source node that already is in
+             * the target, i.e. the whole target forest; what is left of the source is lost */
+            sb_str(&r->flags, "TFREED!");
+            T[t] = NULL;
+            T[s] = NULL;
+        } else if (opts & LYD_MERGE_DESTRUCT) {
             /* "Spend source data tree in the function, it cannot be used afterwards!" */
             if (r->rc && !watch_was_freed(src) && (!T[t] || (top_first(src) != lyd_first_sibling(T[t])))) {
                 sb_str(&r->flags, "NC!");       /* neither freed nor moved: kept so that it is not reported as a leak */
@@ -1685,7 +1735,14 @@ run_cmd(char **w, int nw, struct cmdres *r)
         r->inv |= 1u << t;
         r->modfail |= 1u << t;
         r->ectx = LYD_CTX(T[f]);
-        r->rc = lyd_diff_apply_all(&T[t], T[f]);
+        if (nw > 3) {
+            struct failcb fc = {0, 0};
+
+            fc.failat = atoi(w[3]);
+            r->rc = lyd_diff_apply_module(&T[t], T[f], NULL, diff_failcb, &fc);
+        } else {
+            r->rc = lyd_diff_apply_all(&T[t], T[f]);
+        }
         r->fail = r->rc ? 1 : 0;
         if (T[t] && T[t]->prev->next) {
             sb_str(&r->flags, "NOTFIRST!");
@@ -1736,7 +1793,14 @@ run_cmd(char **w, int nw, struct cmdres *r)
         r->inv |= 1u << a;
         r->modfail |= 1u << a;
         r->ectx = LYD_CTX(T[b]);
-        r->rc = lyd_diff_merge_all(&T[a], T[b], (uint16_t)(OPTS(w[3]) & 1));
+        if (nw > 4) {
+            struct failcb fc = {0, 0};
+
+            fc.failat = atoi(w[4]);
+            r->rc = lyd_diff_merge_module(&T[a], T[b], NULL, diff_failcb, &fc, (uint16_t)(OPTS(w[3]) & 1));
+        } else {
+            r->rc = lyd_diff_merge_all(&T[a], T[b], (uint16_t)(OPTS(w[3]) & 1));
+        }
         r->fail = r->rc ? 1 : 0;
         fix_first(a);
         r->keep_diff = 1u << a;
